@@ -46,11 +46,13 @@ ID = "C17"
 LEAN_TARGETS = ["AiuVerif.Props.C17"]
 THEOREMS = [
     "AiuVerif.C17.limit_spec",
+    "AiuVerif.C17.window_is_intersection",
     "AiuVerif.C17.meta_never_counted_or_dropped",
-    "AiuVerif.C17.stage_limit_spec",
+    "AiuVerif.C17.stage_selects",
     "AiuVerif.C17.filter_spec",
-    "AiuVerif.C17.filter_past_leaf",
+    "AiuVerif.C17.parse_spec",
     "AiuVerif.C17.stage_filter_spec",
+    "AiuVerif.C17.filter_past_leaf",
     "AiuVerif.C17.count_monotone",
     "AiuVerif.C17.window_monotone",
     "AiuVerif.C17.window_monotone_general_false",
@@ -72,9 +74,9 @@ NOT_YET_PROVED = ["regex matching itself (abstract predicate; real `re` in the c
 LEVEL_TEXT = ("Lean theorems over a model of EventLimiter / NormalizationContext.event_within_limits / extract_eventfilters / "
               "event_filtered / normalize_phase1, for all streams, limit tuples and filter lists: the limiter keeps an event "
               "iff it is of an ignored type or intersects the window with 1-based rank among countable intersecting events in "
-              "(skip, skip+count] (limit_spec, stage_limit_spec); ignored types are never counted, dropped or changed "
+              "(skip, skip+count] (limit_spec, window_is_intersection, stage_selects); ignored types are never counted, dropped or changed "
               "(meta_never_counted_or_dropped); on well-typed paths a slice is dropped iff some active pair matches the "
-              "nested attribute of the normalised event (filter_spec, stage_filter_spec) and the ill-typed branch is "
+              "nested attribute of the normalised event (filter_spec, parse_spec, stage_filter_spec, stage_selects) and the ill-typed branch is "
               "characterised (filter_past_leaf); count and non-binding window monotonicity; witnesses for the inconsistent "
               "unrestricted window clause and for the duplicate-attribute loss. Tied to the code by running the real "
               "callback/context registered by the real CLI and the compiled model on the same streams.")
